@@ -24,7 +24,8 @@ RULE = ("One case = model flags (clustering column or not, db_field names differ
         "ttl / timestamp / if_not_exists), load through Model.get, attribute assignment and in-place collection mutation followed by "
         "save() or update(**kw) (iff / if_exists / ttl / timestamp), delete, blind instance update, queryset update with scalar "
         "assignment, None, collection assignment and __add/__remove/__append/__prepend/__update/__remove (possibly empty), queryset "
-        "delete of a row or a partition, counter increments through instances and query sets, and batches of 2-4 of these on distinct "
+        "delete of a row or a partition, a changed primary key column followed by save (the instance moves to the new row), counter "
+        "increments through instances and query sets, and batches of 2-4 of these on distinct "
         "partitions with an optional batch timestamp.  Explicit timestamps are ahead of the server clock and increase along the history.  "
         "Non-trivial: a history with a collection partial update after a save, or a nulling, or a batch touching >= 2 rows, or a "
         "static-only write.")
@@ -111,9 +112,10 @@ def s_step(batchable=False):
     qdelete = st.fixed_dictionaries({"op": st.just("qdelete"), "k": _K, "c": st.one_of(_C, _C, st.none()), "opt": s_opt(ttl=False)})
     counter = st.fixed_dictionaries({"op": st.just("counter"), "how": st.sampled_from(["create", "load_incr", "load_incr", "queryset", "delete"]), "slot": _SLOT,
                                      "k": _K, "c": _C, "d1": st.integers(-3, 5), "d2": st.integers(-2, 2), "method": st.sampled_from(["save", "update"])})
+    rekey = st.fixed_dictionaries({"op": st.just("rekey"), "slot": _SLOT, "k": _K, "c": _C, "part": st.sampled_from([False, False, True]), "set": s_given(max_size=2)})
     if batchable:
         return st.one_of(create, save, update, delete, blind, qupdate, qcoll, qdelete)
-    return st.one_of(create, create, load, load, assign, save, save, save, update, update, update, delete, blind, qupdate, qcoll, qcoll, qdelete, counter)
+    return st.one_of(create, create, load, load, assign, save, save, save, update, update, update, delete, blind, qupdate, qcoll, qcoll, qdelete, counter, rekey)
 
 
 def s_case():
@@ -1015,6 +1017,52 @@ def interpret(case, ctx):
                     sh.delete_row(k, c)
                     mark_stale(k, c, False, True)
                 touched.append((k, c))
+            elif op == "rekey":
+                # a primary key column of a persisted instance is changed and the instance saved: the whole instance goes to the new row
+                si = pick_slot(step)
+                if si is None or batch is not None:
+                    return "skipped"
+                h = slots[si]
+                if meta.has_ck and h.c is None:
+                    return "skipped"
+                if not in_sync(h):
+                    h = refresh(si)
+                    if h is None:
+                        return "failed" if ctx._failures else "skipped"
+                sets = dict((a, v) for a, v in step["set"].items() if a in meta.attrs)
+                do_assign(h, sets, [])
+                nk, nc = h.k, h.c
+                if meta.has_ck and not step["part"]:
+                    nc = step["c"] if step["c"] != h.c else h.c % 2 + 1
+                    h.obj.c = nc
+                else:
+                    nk = step["k"] if step["k"] != h.k else h.k % 3 + 1
+                    h.obj.k = nk
+                obj = h.obj
+                obj.iff()
+                obj.if_exists(False)
+                obj.if_not_exists(False)
+                obj.ttl(None)
+                obj.timestamp(None)
+                obj._batch = None
+                blame["*"] = "rekey"
+                for a in meta.attrs:
+                    blame[a] = "rekey"
+                outcome = run(["C35.run", "rekey"], obj.save, False)
+                if outcome != "ok":
+                    return outcome
+                explicit_nulls = set(a for a in meta.attrs if h.vals[a] is None and (a in h.explicit or h.snap.get(a) is not None))
+                apply_insert(nk, nc, h.vals, explicit_nulls)
+                mark_stale(nk, nc, any(a in meta.static and (h.vals[a] is not None or a in explicit_nulls) for a in meta.attrs), True, but=h)
+                h.k, h.c = nk, nc
+                h.snap = copy.deepcopy(h.vals)
+                h.explicit = set()
+                h.stale_prev = {}
+                check_instance(h, "rekey")
+                if not in_sync(h):
+                    h.stale = True
+                ctx.label("rekey:" + ("clustering" if (meta.has_ck and not step["part"]) else "partition"))
+                touched.append((nk, nc))
             elif op == "counter":
                 return counter_step(step)
             return touched
